@@ -50,6 +50,8 @@ Envs ==
   { Base } \cup { [Base EXCEPT !.seed = s] : s \in 1..Seeds } \cup { [Base EXCEPT !.glob = g] : g \in 1..Globs }
   \cup { [Base EXCEPT !.cwd = "elsewhere"], [Base EXCEPT !.spelling = "rel"], [Base EXCEPT !.spelling = "abs/"], [Base EXCEPT !.rep = 2] }
   \cup { [seed |-> s, glob |-> s, cwd |-> "elsewhere", spelling |-> "rel", rep |-> 1] : s \in 1..2 }
+  \* the working directory is an ancestor of the package, two plain directories above it, and the source is given relative to it
+  \cup { [Base EXCEPT !.cwd = "ancestor", !.spelling = "rel"] }
 EmitEnvs == (Done /\ cset = { [depth |-> 1, id |-> 1] }) => PrintT(ToJson(Envs))
 
 (***************************************************************************)
